@@ -334,7 +334,8 @@ def generate(rng, tier):
             # ("constrained and logical types, data classes and decorated functions")
             t = gen_type(rng, 0)
         plan["type"] = t
-        plan["input"] = gen_value(rng, t, pool, pos, 0, hostile_p)
+        # (the container handed to a constrained / generic type is iterated by the library itself: a fault site at the top too)
+        plan["input"] = gen_value(rng, t, pool, pos, 1 if rng.random() < 0.3 else 0, hostile_p)
     else:
         fields = []
         inp = {}
